@@ -509,13 +509,18 @@ def case_sort(ctx, s: Subject, nest_name=IDENT_NEST):
         k0 = rng.choice(bigf)
         ks = [k0] + [k for k in ks if k != k0][:rng.randint(0, 1)]
     qn = q(nest_name)
+    repeated = rng.random() < 0.15
+    if repeated:
+        ks = ks + [ks[0]]      # a key mentioned twice: its first mention (and that mention's direction) decides
     by = [f"{qn}.{q(k)}" if qn != nest_name else f"{nest_name}.{k}" for k in ks]
-    asc_form = rng.choice(["bool", "list"])
+    asc_form = rng.choice(["bool", "list"]) if not repeated else "list"
     if asc_form == "bool":
         a = rng.random() < 0.6
         ascending, asc_list = a, [a] * len(ks)
     else:
         asc_list = [rng.random() < 0.5 for _ in ks]
+        if repeated:
+            asc_list[-1] = not asc_list[0]
         ascending = list(asc_list)
     na_first = rng.random() < 0.4
     inplace = rng.random() < 0.25
